@@ -119,11 +119,20 @@ fn post_cpc(s: CpcSketch, seed: u64) {
     for n in NSD {
         let _ = (s.lower_bound(n), s.upper_bound(n));
     }
+    // A sketch cannot be updated past window offset 56, i.e. beyond ceil(59.375 K) - 1 coupons
+    // (the models' precondition, see DESIGN 3a): a restored sketch that close to the end of its
+    // life is only queried and re-serialized, and unions (which may OR it past the cap) are
+    // limited to sketches in the first half of their life.
+    let cap = crate::cpcm::max_coupons(s.lg_k()) as u64;
+    let room = cap.saturating_sub(s.num_coupons() as u64);
     let mut m = s.clone();
-    m.update(1u64);
-    m.update("x");
+    if room > 2 {
+        m.update(1u64);
+        m.update("x");
+    }
     let _ = (m.estimate(), small && m.validate());
-    if s.lg_k() <= 16 {
+    let first_half = (s.num_coupons() as u64) < cap / 2;
+    if s.lg_k() <= 16 && first_half {
         let mut u = CpcUnion::with_seed(s.lg_k(), seed);
         u.update(&s);
         u.update(&s.clone());
@@ -136,7 +145,7 @@ fn post_cpc(s: CpcSketch, seed: u64) {
     let _ = m.serialize();
     // unions with partners of other lg_k and flavors (both orders); a union allocates a k x 64
     // bit matrix, so the very large lg_k only get the light part of the script
-    if s.lg_k() <= 16 {
+    if s.lg_k() <= 16 && first_half {
         let mut big = CpcSketch::with_seed(10, seed);
         for i in 0..6000u64 {
             big.update(i);
@@ -166,16 +175,21 @@ fn post_cpc(s: CpcSketch, seed: u64) {
     if s.lg_k() <= 8 {
         let n = (40u64 << s.lg_k()).min(12_000);
         for i in 0..n {
+            if m.num_coupons() as u64 + 2 >= cap {
+                break;
+            }
             m.update(i);
             if i & 511 == 0 {
                 let _ = (m.estimate(), m.validate());
             }
         }
         let _ = (m.estimate(), m.validate(), m.serialize());
-        let mut u = CpcUnion::with_seed(s.lg_k(), seed);
-        u.update(&m);
-        u.update(&s);
-        let _ = u.to_sketch().serialize();
+        if first_half && (m.num_coupons() as u64) < cap / 2 {
+            let mut u = CpcUnion::with_seed(s.lg_k(), seed);
+            u.update(&m);
+            u.update(&s);
+            let _ = u.to_sketch().serialize();
+        }
     }
 }
 
